@@ -39,6 +39,59 @@ def cases(rng, tier):
     n = 900 if tier == 'quick' else 8000
     out += C.build_cases(rng, n, calls_per=3, style='kw', tag='c08a')
     out += C.build_cases(rng, n // 3, calls_per=2, profile='incomplete', style='kw', tag='c08b')
+    out += C.scenario_cases(rng, n // 8, tag='c08sc')
+    out += zoo_call_cases(rng, tier)
+    return out
+
+
+ZOO_HEADER = 'import _zoo as _Z\n_ZA = [a for _, a in _Z.annotations()]\n'
+ZOO_POS = {'named': ('p0: _ZA[{i}]', ' -> None'), 'named_dflt': ('p0: _ZA[{i}] = None', ' -> None'), 'star': ('*args: _ZA[{i}]', ' -> None'),
+           'dstar': ('**kwargs: _ZA[{i}]', ' -> None'), 'kwonly': ('*, k0: _ZA[{i}]', ' -> None'), 'ret': ('', ' -> _ZA[{i}]')}
+
+
+def zoo_call_cases(rng, tier):
+    """every zoo annotation at every position of a real @pedantic function (named / defaulted / *args / **kwargs / keyword-only
+    parameter, return annotation), called with keyword calls; functions and a method of a @pedantic_class class"""
+    anns, _ = zoo()
+    lit = K.lit
+    vals = [lit(None), lit(1), lit('a'), ["coll", K.IDX[list], [lit(1)]], ["inst", K.IDX[K.U]]]
+    defs, twins, meta = [], [], []
+    for i, (label, _) in enumerate(anns):
+        for pos, (sig, ret) in ZOO_POS.items():
+            if tier == 'quick' and pos in ('named_dflt', 'kwonly') and i % 3:
+                continue
+            d = 'async def' if rng.random() < 0.15 else 'def'
+            name = f'z{i}_{pos}'
+            body = f'{d} {name}({sig.format(i=i)}){ret.format(i=i)}:\n    return _BODY({i}, locals())\n'
+            defs.append('@pedantic\n' + body); twins.append(body)
+            meta.append((i, label, pos, name, 'coroutine' if d != 'def' else 'sync', '@pedantic\n' + body, body))
+    P = C.OneProgram(ZOO_HEADER + ''.join(defs), ZOO_HEADER + ''.join(twins), f'zoo{rng.randrange(10**9)}')
+    out = []
+    try:
+        for (i, label, pos, name, flav, src1, twin1) in meta:
+            F = {'flavour': flav, 'kind': 'plain'}
+            acc = ('mod', name)
+            raw, mode = P.raw_of(F, acc)
+            try:
+                desc = C.describe(raw, mode)
+            except Exception:
+                continue
+            calls = []
+            v = rng.choice(vals)
+            if pos in ('named', 'named_dflt'): calls = [([], [[K.nid('p0'), v]])] + ([([], [])] if pos == 'named_dflt' else [])
+            elif pos == 'star': calls = [([], [])]
+            elif pos == 'dstar': calls = [([], []), ([], [[K.nid('x0'), v]])]
+            elif pos == 'kwonly': calls = [([], [[K.nid('k0'), v]])]
+            else: calls = [([], [])]
+            for (pa, kw) in calls:
+                body = ['ret', v if pos == 'ret' else lit(None)]
+                impl = C.execute(P, F, acc, pa, kw, body)
+                truth = {'realStatic': False, 'realSetter': False, 'realPedantic': True, 'implicit': 0}
+                out.append({'m': 'calllayer', 'c': {'env': K.env_json(), 'fn': desc, 'truth': truth, 'args': pa, 'kw': kw, 'body': body},
+                            'x': {'src': ZOO_HEADER + src1, 'twin': ZOO_HEADER + twin1, 'access': list(acc), 'kind': 'plain', 'flavour': flav,
+                                  'pos': pa, 'kwv': kw, 'body': body, 'implicit': 0, 'needle': None, 'zoo_call': [i, label, pos], '_impl': impl}})
+    finally:
+        P.close()
     return out
 
 
@@ -67,6 +120,11 @@ def run_impl(cases):
 
 def judge_call(case, impl, model):
     corr, why = C.correspondence(case, impl, model)
+    if case['x'].get('zoo_call'):
+        # the annotation is outside the model vocabulary (node `special`, answered by an arbitrary oracle; the theorem holds for every
+        # oracle): R_C08 here is "the implementation lets an exception escape only where the model does"
+        corr = not C.norm_out(impl['out']).startswith(('ESC', 'BIND')) or C.norm_out(C.model_class(model)).startswith(('ESC', 'BIND'))
+        why = '' if corr else f"implementation {impl['out']} vs model {model['caller']} (zoo annotation {case['x']['zoo_call'][1]} at {case['x']['zoo_call'][2]})"
     s = model['spec']
     out = C.norm_out(impl['out'])
     pfail = None
